@@ -56,8 +56,10 @@ def run(sid, tier="quick"):
     t = time.time()
     gen = os.path.join(VERIF, "lean", "PybropsModel", "Generated")
     bak = f"/tmp/sr_{sid}_generated"
-    shutil.rmtree(bak, ignore_errors=True)
-    shutil.copytree(gen, bak)          # regenerated files are put back exactly as they were before this run
+    regen = pid in ("C08", "C20")      # only these checks rewrite Generated/*; others may run in parallel
+    if regen:
+        shutil.rmtree(bak, ignore_errors=True)
+        shutil.copytree(gen, bak)      # regenerated files are put back exactly as they were before this run
     try:
         rc, out = sh(f"git -C {wt} apply {d}/patch.diff")
         if rc != 0:
@@ -68,9 +70,10 @@ def run(sid, tier="quick"):
         rc, out = sh(f"PYBROPS_REPO={wt} ./check {pid} --tier {tier}", cwd=VERIF, timeout=7200)
     finally:
         sh(f"git -C /repo worktree remove --force {wt}")
-        shutil.rmtree(gen, ignore_errors=True)
-        shutil.copytree(bak, gen)
-        shutil.rmtree(bak, ignore_errors=True)
+        if regen:
+            shutil.rmtree(gen, ignore_errors=True)
+            shutil.copytree(bak, gen)
+            shutil.rmtree(bak, ignore_errors=True)
     lines = [l for l in out.splitlines() if l.startswith(("VIOLATION", "KNOWN-FINDING", "HARNESS-ERROR", f"[{pid}]"))]
     res = {"tier": tier, "exit": rc, "caught": rc == 1 and any(l.startswith("VIOLATION") for l in lines),
            "with_failing_input": any(l.startswith("VIOLATION") and "no-failing-input-found" not in l for l in lines),
